@@ -7,7 +7,10 @@ import (
 	"strings"
 
 	"sigs.k8s.io/kustomize/kyaml/filesys"
+	"sigs.k8s.io/yaml"
 )
+
+func yamlMarshal(v interface{}) ([]byte, error) { return yaml.Marshal(v) }
 
 // diffPaths lists the leaf paths at which a and b differ as typed JSON values.
 func diffPaths(a, b interface{}, path []string, out *[][]string) {
@@ -68,6 +71,10 @@ func init() {
 		o := newOracleRun("C02", seed)
 		for _, cs := range caseSeeds(seed, n, "C02") {
 			r := rand.New(rand.NewSource(cs))
+			if r.Intn(6) == 0 {
+				c02Sharing(o, r, cs)
+				continue
+			}
 			f := allFeat()
 			f.Adversarial = true
 			f.Dense = r.Intn(3) == 0
@@ -199,5 +206,190 @@ func init() {
 			}
 		}
 		return o.rep
+	}
+}
+
+// c02Sharing: a NON-SCALAR value (map or list) is copied by a replacement from one resource into several others;
+// afterwards a directive edits inside the copy held by ONE of them (JSON patch, strategic-merge patch, a second
+// replacement, in the same or an outer layer).  The holder of the source and the other copies are not targeted by
+// that directive and must come out with the value as copied.
+func c02Sharing(o *oracleRun, r *rand.Rand, cs int64) {
+	list := r.Intn(3) == 0
+	var block interface{} = Obj{"runAsUser": float64(1000), "level": "012", "nested": Obj{"cpu": "1", "mem": "2"}}
+	if list {
+		block = []interface{}{Obj{"name": "first", "cpu": "1"}, Obj{"name": "second", "cpu": "2"}}
+	}
+	kind := pickS(r, []string{"Widget", "Widget", "ConfigMap"})
+	api := "example.com/v1"
+	if kind == "ConfigMap" {
+		api = "v1"
+	}
+	mk := func(name string, spec Obj) Obj {
+		return Obj{"apiVersion": api, "kind": kind, "metadata": Obj{"name": name}, "spec": spec}
+	}
+	holders := []string{"a", "b", "c"}[:2+r.Intn(2)]
+	docs := []Obj{mk("defaults", Obj{"block": block, "other": "keep"})}
+	for _, h := range holders {
+		sp := Obj{"other": "keep-" + h}
+		if r.Intn(2) == 0 {
+			sp["block"] = Obj{"old": "x"} // replaced wholesale
+		}
+		docs = append(docs, mk(h, sp))
+	}
+	if r.Intn(2) == 0 { // source listed after the holders
+		docs = append(docs[1:], docs[0])
+	}
+	var sb strings.Builder
+	for i, d := range docs {
+		if i > 0 {
+			sb.WriteString("---\n")
+		}
+		b, _ := yamlMarshal(d)
+		sb.Write(b)
+	}
+	var tsel []interface{}
+	if r.Intn(2) == 0 {
+		for _, h := range holders {
+			tsel = append(tsel, Obj{"select": Obj{"kind": kind, "name": h}, "fieldPaths": []interface{}{"spec.block"}, "options": Obj{"create": true}})
+		}
+	} else {
+		tsel = append(tsel, Obj{"select": Obj{"kind": kind}, "reject": []interface{}{Obj{"name": "defaults"}}, "fieldPaths": []interface{}{"spec.block"}, "options": Obj{"create": true}})
+	}
+	copyRepl := Obj{"source": Obj{"kind": kind, "name": "defaults", "fieldPath": "spec.block"}, "targets": tsel}
+	edited := holders[r.Intn(len(holders))]
+	// the edit: path inside the block and the new value
+	var editPath []interface{}
+	var jpPath, replPath string
+	if list {
+		editPath, jpPath, replPath = ipath(nil, "spec", "block", 1, "cpu"), "/spec/block/1/cpu", "spec.block.1.cpu"
+	} else if r.Intn(2) == 0 {
+		editPath, jpPath, replPath = ipath(nil, "spec", "block", "nested", "cpu"), "/spec/block/nested/cpu", "spec.block.nested.cpu"
+	} else {
+		editPath, jpPath, replPath = ipath(nil, "spec", "block", "level"), "/spec/block/level", "spec.block.level"
+	}
+	base := Obj{"resources": []interface{}{"res.yaml"}, "replacements": []interface{}{copyRepl}}
+	over := Obj{"resources": []interface{}{"../base"}}
+	mode := r.Intn(4)
+	if list && mode == 1 {
+		mode = 0 // a strategic-merge patch of a schemaless list replaces it: use the JSON patch instead
+	}
+	where := over
+	if r.Intn(3) == 0 && mode != 2 {
+		where = base // same layer: patches run before replacements there, so the edit must come from a replacement
+		mode = 2
+	}
+	switch mode {
+	case 0:
+		where["patches"] = []interface{}{Obj{"target": Obj{"kind": kind, "name": edited}, "patch": "- op: replace\n  path: " + jpPath + "\n  value: \"8\"\n"}}
+	case 1:
+		inner := "level: \"8\""
+		if strings.Contains(replPath, "nested") {
+			inner = "nested:\n      cpu: \"8\""
+		}
+		where["patches"] = []interface{}{Obj{"patch": "apiVersion: " + api + "\nkind: " + kind + "\nmetadata:\n  name: " + edited + "\nspec:\n  block:\n    " + inner + "\n"}}
+	default:
+		edit := Obj{"sourceValue": "8", "targets": []interface{}{Obj{"select": Obj{"kind": kind, "name": edited}, "fieldPaths": []interface{}{replPath}}}}
+		if rl, ok := where["replacements"].([]interface{}); ok {
+			where["replacements"] = append(rl, edit)
+		} else {
+			where["replacements"] = []interface{}{edit}
+		}
+	}
+	fs := filesys.MakeFsInMemory()
+	fs.MkdirAll("/w/base")
+	fs.MkdirAll("/w/over")
+	kb, _ := yamlMarshal(base)
+	ko, _ := yamlMarshal(over)
+	fs.WriteFile("/w/base/res.yaml", []byte(sb.String()))
+	fs.WriteFile("/w/base/kustomization.yaml", kb)
+	fs.WriteFile("/w/over/kustomization.yaml", ko)
+	input := map[string]interface{}{"base/res.yaml": sb.String(), "base/kustomization.yaml": string(kb), "over/kustomization.yaml": string(ko), "edited": edited}
+	out, err, pnc := safeBuild(func() (string, error) { return runBuild(fs, "/w/over", nil) })
+	if pnc != nil {
+		o.note("sharing-panic", input)
+		return
+	}
+	if err != nil {
+		o.note("sharing-"+errClass(err), input)
+		return
+	}
+	o.note("sharing-ok", input)
+	outDocs, perr := parseDocs(out)
+	if perr != nil {
+		o.fail("output-unparsable", perr.Error(), cs, input, nil, nil)
+		return
+	}
+	byName := map[string]Obj{}
+	for _, d := range outDocs {
+		md, _ := d["metadata"].(map[string]interface{})
+		n, _ := md["name"].(string)
+		byName[n] = d
+	}
+	for _, n := range append([]string{"defaults"}, holders...) {
+		d, ok := byName[n]
+		if !ok {
+			o.fail("resource-count", "resource "+n+" missing from the output", cs, input, nil, nil)
+			continue
+		}
+		got, _ := getPath(map[string]interface{}(d), ipath(nil, "spec", "block"))
+		want := deepCopyJSON(block)
+		if n == edited {
+			setPathJSON(map[string]interface{}{"spec": map[string]interface{}{"block": want}}, editPath, "8", &want)
+		}
+		if !reflect.DeepEqual(normJSON(got), normJSON(want)) {
+			cls := "untargeted-field-changed"
+			if n == edited {
+				cls = "edited-copy-wrong"
+			}
+			o.fail(cls, fmt.Sprintf("%s %s: spec.block is %v, expected %v (only %s was edited after the copy)", kind, n, got, want, edited), cs, input, got, want)
+		}
+		if ov, _ := getPath(map[string]interface{}(d), ipath(nil, "spec", "other")); n == "defaults" && ov != "keep" {
+			o.fail("untargeted-field-changed", "defaults.spec.other changed", cs, input, ov, "keep")
+		}
+	}
+}
+
+func deepCopyJSON(v interface{}) interface{} {
+	switch x := v.(type) {
+	case map[string]interface{}:
+		m := map[string]interface{}{}
+		for k, e := range x {
+			m[k] = deepCopyJSON(e)
+		}
+		return m
+	case []interface{}:
+		l := make([]interface{}, len(x))
+		for i, e := range x {
+			l[i] = deepCopyJSON(e)
+		}
+		return l
+	}
+	return v
+}
+
+func normJSON(v interface{}) interface{} { return deepCopyJSON(v) }
+
+// setPathJSON sets the value at path (below spec.block) inside *block.
+func setPathJSON(_ map[string]interface{}, path []interface{}, val interface{}, block *interface{}) {
+	cur := *block
+	rest := path[2:] // drop spec, block
+	for i, step := range rest {
+		lastStep := i == len(rest)-1
+		switch k := step.(type) {
+		case string:
+			m := cur.(map[string]interface{})
+			if lastStep {
+				m[k] = val
+				return
+			}
+			cur = m[k]
+		case int:
+			l := cur.([]interface{})
+			if lastStep {
+				l[k] = val
+				return
+			}
+			cur = l[k]
+		}
 	}
 }
